@@ -213,6 +213,15 @@ class SymSpec(object):
             return x != x
         return False
 
+    def same(self, a, b):
+        """two DATA cells hold the same value: equal, or both NaN (IEEE `==` is false on NaN; cells that were copied are
+        nevertheless the same).  One meaning in both interpretations."""
+        za, zb = to_z3(a), to_z3(b)
+        if z3.is_real(za) or z3.is_real(zb):
+            za, zb = sym._toreal(za), sym._toreal(zb)
+            return mkbool(z3.Or(za == zb, z3.And(sym.ISNAN(za), sym.ISNAN(zb))))
+        return mkbool(za == zb)
+
     def snapshot(self, arr):
         """frozen copy of an array's current content (for old(.) in postconditions)"""
         r = symnp.ndarray.from_fn(arr.snapshot(), arr._shape, arr.kind, arr.elem)
